@@ -1,1 +1,34 @@
-(* C08: placeholder while the check is under construction *)
+(* C08: left-recursive rules parse as the left-associative iteration they denote.
+   Specification: Spec/LRIter.v (lreval / lrparse): a rule A <- A a1 / .. / A an / b1 / .. / bm, the
+   recursive reference possibly through one alias rule, is the iteration (b1/../bm)(a1/../an)* with
+   the recursive reference standing for the left-nested result so far.
+   Proved here about the model of the run-time:
+   - what the last, non-extending growth attempt did to the error list and to the state store is not
+     retained, whatever the rule body did (any wrap, any rule, any state);
+   - the full statement "the run-time computes the iteration" is FALSE of the faithful model when the
+     cycle is entered through a rule that is not its leader: witness below (known finding
+     C08-LEADER-NOT-ENTRY), and true on the same grammar once the entered rule is the leader.
+   The statement for the remaining shapes is decided by execution against lrparse (see DESIGN.md):
+   it is not proved (C08_iteration_partial). *)
+From PV Require Import Lib.Base Lib.Utf8 Syntax.RGrammar Syntax.Code Model.PState Spec.Pos Model.Runtime
+  Spec.Ref Spec.RefParse Spec.LRIter Proofs.LRProofs Proofs.LRRefuted.
+
+Theorem C08_last_attempt_not_retained :
+  forall (c : cfg) (wrap : expr -> M (val * bool)) n r sm depth last lastErrs s v b s2,
+    parseRule wrap r (attempt_start c r sm last s) = Ok (v, b) s2 ->
+    not_extending depth last b s2 ->
+    exists s3,
+      leader_loop c wrap (S n) r sm depth last lastErrs s = Ok last s3 /\
+      errs s3 = lastErrs /\
+      (has_state (cT c) = true -> st s3 = st s) /\
+      gs s3 = gs s2 /\ trace s3 = trace s2.
+Proof. exact last_attempt_not_retained. Qed.
+Print Assumptions C08_last_attempt_not_retained.
+
+(* Start <- Sum ; Sum <- Lhs "+" P / P ; Lhs <- Sum ; P <- "1"  on "1+1" *)
+Theorem C08_iteration_refuted_when_entered_through_non_leader :
+  rvalue_of (lrparse (rd (cfg_entry false)) 200) = Some whole /\
+  value_of (parse (cfg_entry false) 200) = Some (VBytes [49%N]) /\
+  value_of (parse (cfg_entry true) 200) = Some whole.
+Proof. exact (conj spec_parses_whole (conj impl_stops_short impl_with_entered_leader)). Qed.
+Print Assumptions C08_iteration_refuted_when_entered_through_non_leader.
